@@ -4,7 +4,7 @@ import boot
 from lib import wire
 from lib.shrink import shrink_seq
 
-TABLES = ['T02', 'T03', 'T13', 'T16']
+TABLES = ['T02', 'T03', 'T04', 'T13', 'T16']
 RULE = ('live bot (Owner, Misc, Config, User, Admin, Channel loaded; world.testing off; allowUnregistration on; flood protection off) with three '
         'speaking actors (unregistered, plain registered, admin-not-owner) and an owner account that never speaks; random histories of 10-40 '
         'private commands (user register/unregister/changename/identify/unidentify/hostmask add|remove/set password|secure, admin capability '
@@ -259,7 +259,8 @@ def recognisers(B, prefix):
     ircdb, ircutils = B['ircdb'], B['ircutils']
     out = []
     for i, u in ircdb.users.users.items():
-        if any(h == prefix for _, h in u.auth) or any(ircutils.hostmaskPatternEqual(p, prefix) for p in u.hostmasks):
+        bymask = any(ircutils.hostmaskPatternEqual(p, prefix) for p in u.hostmasks)
+        if bymask or (any(h == prefix for _, h in u.auth) and not u.secure):     # a login of a secure account needs a mask too
             out.append(i)
     return out
 
